@@ -40,7 +40,9 @@ Record ncfg := mkNcfg {
   nc_srv : srvcfg;
   nc_preempt : Z;                     (* priority_preempt option                                   *)
   nc_reneging : bool;                 (* node.reneging: some class has a reneging distribution here *)
-  nc_ren : list bool                  (* class -> has a reneging distribution at this node         *)
+  nc_ren : list bool;                 (* class -> has a reneging distribution at this node         *)
+  nc_spf : Z                          (* server_priority_function: 0 None; the harness's three functions (netbuild.SPF): 1 'hi' key = -id,
+                                         2 'idle' key = (busy_time, id), 3 'cls' key = ((id + class index) mod 2, id) *)
 }.
 Record config := mkCfg {
   cf_k : Z;
